@@ -342,4 +342,14 @@ def via_renames(rng, g, p=0.3):
             else:
                 orig = [f"p{i}_{n['name']}" if rng.random() < 0.7 else c for i, c in enumerate(cur)]
             n["via_rename"] = {"orig": orig, "touch": rng.random() < 0.6}
+            if rng.random() < 0.4:
+                # ... through an intermediate naming that is itself used (executed) before the second rename; the intermediate names
+                # are a permutation of the current ones when possible (a swap done in two steps), else fresh
+                mid = cur[:]
+                if len(mid) >= 2:
+                    while mid == cur:
+                        rng.shuffle(mid)
+                else:
+                    mid = [f"m{i}_{n['name']}" for i, _c in enumerate(cur)]
+                n["via_rename"]["mid"] = mid
     return g
